@@ -367,7 +367,8 @@ pub fn check(pid: &str, seed: u64) -> Value {
                     if let Ok(e0) = run(&tcase(t, 0.5, 2.0, lm)) {
                         nontrivial += 1;
                         // every energy multiplied by c: every figure of the result scales, shares and matching factors stay
-                        for c in [1024.0f32, 1.0 / 64.0] {
+                        // (upwards only: the property speaks of values that are zero or at least 0.01 kWh, and the text cases contain 0.01)
+                        for c in [1024.0f32, 8.0] {
                             evals += 1;
                             if let Ok(e) = run(&tcase(&scale_text(t, c), 0.5, 2.0, lm)) {
                                 let unit = |p: &String| p.starts_with("rer") || p.contains(".f_match[");
